@@ -20,9 +20,9 @@ import (
 // results as the same work done sequentially.
 
 type c19Cfg struct {
-	T     string `json:"type"`
-	C     int
-	R, W  int // readers, writers
+	T       string `json:"type"`
+	C       int
+	R, W    int // readers, writers
 	Menu    int // which set of entry points the threads run
 	Bound   int
 	Partial bool // readers only: the shared buffer's last frame is partly filled (C-1 samples appended after 5 frames)
